@@ -96,6 +96,7 @@ Definition meth1 (m : string) (r a : val) : outcome :=
   | "wrapping_add", VN x, VN y => Ret (VN (wadd x y))
   | "add", VN x, VN y => if x + y <? W then Ret (VN (x + y)) else Ovf     (* <*mut u8>::add: addresses are numbers *)
   | "offset", VN x, VN y => if x + y <? W then Ret (VN (x + y)) else Ovf  (* <*mut T>::offset with a non-negative count, in elements *)
+  | "offset_back", VN x, VN y => if y <=? x then Ret (VN (x - y)) else Ovf  (* <*mut T>::offset(-y), in elements *)
   | "offset_from", VPtr x _, VN y => if y <=? x then Ret (VN (x - y)) else Stuck   (* distance in bytes from y up to the pointee's address; a negative distance is outside the fragment *)
   | "max", VN x, VN y => Ret (VN (N.max x y))
   | "min", VN x, VN y => Ret (VN (N.min x y))
@@ -273,7 +274,10 @@ Inductive stmt :=
 | SDo (f : string) (args : list expr)
 | SWhile (c : expr) (body : list stmt)
 | SIf (c : expr) (th el : list stmt)
-| SIfAsk (negate : bool) (f : string) (args : list expr) (th el : list stmt).
+| SIfAsk (negate : bool) (f : string) (args : list expr) (th el : list stmt)
+| SRepeat (n : expr) (body : list stmt)          (* for _ in a..b { body }: n = b - a, evaluated once *)
+| SDoMay (f : string) (args : list expr).        (* a call that runs caller-supplied code (a destructor): recorded,
+                                                    and the script says whether it returns (Some _) or panics (None) *)
    (* `if f(args) {..} else {..}` / `if !f(args) ..` where f is a caller-supplied closure: its answer
       comes from a script (None: the closure panics); the call is recorded like an effect *)
 
@@ -336,6 +340,29 @@ Fixpoint exec (ft : fntab) (fuel : nat) (en : env) (tr : list effect) (script : 
             end
         | _ => XStuck
         end
+    | SRepeat n body :: r =>
+        match eval ft FUEL_SEM en n with
+        | Ret (VN k) =>
+            (fix rep (j : nat) (en : env) (tr : list effect) (script : list (option bool)) {struct j} : xres :=
+               match j with
+               | O => exec ft fuel en tr script r
+               | S j' => match exec ft fuel en tr script body with
+                         | XOk en' tr' script' => rep j' en' tr' script'
+                         | other => other
+                         end
+               end) (N.to_nat k) en tr script
+        | _ => XStuck
+        end
+    | SDoMay f args :: r =>
+        match eval_args ft en args with
+        | Some vs =>
+            match script with
+            | Some _ :: script' => exec ft fuel en (List.app tr [(f, vs)]) script' r
+            | None :: _ => XPanic en (List.app tr [(f, vs)])
+            | [] => XStuck
+            end
+        | None => XStuck
+        end
     | SIfAsk negate f args th el :: r =>
         match eval_args ft en args with
         | Some vs =>
@@ -355,3 +382,14 @@ Fixpoint exec (ft : fntab) (fuel : nat) (en : env) (tr : list effect) (script : 
   end.
 
 Record procdef := mkProc { proc_params : list string; proc_body : list stmt }.
+
+(* the repetition of SRepeat as a function of its own (the executor runs it at the fuel below its own) *)
+Fixpoint repf (ft : fntab) (f : nat) (body r : list stmt) (j : nat) (en : env) (tr : list effect)
+         (script : list (option bool)) : xres :=
+  match j with
+  | O => exec ft f en tr script r
+  | S j' => match exec ft f en tr script body with
+            | XOk en' tr' script' => repf ft f body r j' en' tr' script'
+            | other => other
+            end
+  end.
